@@ -224,13 +224,13 @@ Lemma dv_conditions_iff : forall s entry e,
   dv_check s (if entry =? 0 then true else dv_key_present e) e = 0.
 Proof.
   intros s entry e. rewrite dv_check_0. unfold dv_conditions. split.
-  - intros [c [cl [chain [ds H]]]]. decompose [and] H; clear H. split; auto.
+  - intros [c [cl [chain [ds [Hc [Hcl [Hh [Hch [M [K [A1 [A2 [A3 [A4 [A5 [A6 A7]]]]]]]]]]]]]]]]. split; auto.
     exists c, cl, chain, ds. repeat split; auto. apply verify_dv_0. repeat split; auto.
     destruct (entry =? 0) eqn:E; auto. apply Z.eqb_neq in E. auto.
-  - intros [M [c [cl [chain [ds H]]]]]. decompose [and] H; clear H.
-    apply verify_dv_0 in H4. decompose [and] H4; clear H4.
+  - intros [M [c [cl [chain [ds [Hc [Hcl [Hh [Hch [Hv Hds]]]]]]]]]].
+    apply verify_dv_0 in Hv. destruct Hv as [K [A1 [A2 [A3 [A4 [A5 A6]]]]]].
     exists c, cl, chain, ds. repeat split; auto; try (apply M; auto).
-    intro N. apply Z.eqb_neq in N. rewrite N in H3. auto.
+    intro N. apply Z.eqb_neq in N. rewrite N in K. auto.
 Qed.
 
 Lemma submit_dv_spec : forall s entry e,
